@@ -1,7 +1,7 @@
 (* C02 -- results equal the sequential computation: value, order, exception.
    Only statements here; proofs live in Proofs/ReassemblyProofs.v (model) and
    Proofs/ReassemblyGenProofs.v (code translated on this run = model). *)
-From Coq Require Import ZArith List Bool Lia.
+From Coq Require Import ZArith List Bool Lia Permutation.
 From BV Require Import Lib.PyVal Lib.Cases Model.Reassembly Gen.K_reassembly
      Proofs.ReassemblyProofs Proofs.ReassemblyGenProofs Proofs.ReassemblyImapProofs.
 Import ListNotations.
@@ -115,6 +115,23 @@ Theorem C02_map_any_order :
 Proof. intros A B E none f l k Hk hc he d H. exact (map_any_order none f l k Hk hc he d H). Qed.
 Print Assumptions C02_map_any_order.
 
+(* the headline: Pool.map on a non-empty input, any chunk size >= 1 or the default,
+   any pool size >= 1, any completion order of the chunks *)
+Theorem C02_map_end_to_end :
+  forall (A B E : Type) (none : B) (f : A -> B) (l : list A) (cs : option Z) (p : Z)
+         (d : bool) (H : list nat),
+    l <> [] -> (cs = None -> 1 <= p) -> (forall c, cs = Some c -> 1 <= c) ->
+    exists (k : nat) (batches : list (list A)) (st0 : mres B E),
+      map_async none l cs p = Some (Z.of_nat k, Some batches, st0) /\
+      concat batches = l /\
+      (Permutation H (seq 0 (length batches)) ->
+       let msgs := map (fun i => (if d then MDeliver else MSet)
+                                   (MOk (Z.of_nat i) (mapstar f (nth i batches [])))) H in
+       map_get (fst (map_run st0 msgs)) = OList (map f l) /\
+       m_cb (fst (map_run st0 msgs)) = [] /\ m_success (fst (map_run st0 msgs)) = true).
+Proof. intros A B E. exact (@map_end_to_end A B E). Qed.
+Print Assumptions C02_map_end_to_end.
+
 Theorem C02_map_async_resolves : forall (A B E : Type) (none : B) (l : list A) (cs : option Z) (p : Z),
     l <> [] -> (cs = None -> 1 <= p) -> (forall c, cs = Some c -> 1 <= c) ->
     exists k : nat,
@@ -186,6 +203,14 @@ Theorem C02_apply : forall (A E : Type) (hc he : bool) (n1 n2 : nat) (d : bool) 
     a_ecb st = (match b with Bad e => if he then [e] else [] | Good _ => [] end).
 Proof. intros A E. exact (@apply_result A E). Qed.
 Print Assumptions C02_apply.
+
+Theorem C02_apply_first_outcome_kept : forall (A E : Type) (st : ares A E) (ops : list (aop A E)),
+    a_ready st = true ->
+    let st' := fst (apply_run st ops) in
+    a_ready st' = true /\ a_value st' = a_value st /\ a_cb st' = a_cb st /\ a_ecb st' = a_ecb st /\
+    apply_get st' = apply_get st.
+Proof. intros A E. exact (@apply_first_outcome_kept A E). Qed.
+Print Assumptions C02_apply_first_outcome_kept.
 
 (* ---------------- imap (chunksize 1) ---------------- *)
 
